@@ -14,6 +14,7 @@ import (
 	"crypto/x509/pkix"
 	"encoding/pem"
 	"fmt"
+	"io"
 	"math/big"
 	"net"
 	"net/http"
@@ -39,6 +40,7 @@ type pki struct {
 	cas        map[int]*ca
 	serverCert tls.Certificate         // issued by CA 1, names: localhost, c12.test, 127.0.0.1
 	nameCert   tls.Certificate         // issued by CA 1, names: localhost, c12.test only (no IP SAN)
+	proxyCert  tls.Certificate         // issued by CA 1, IP SAN 127.0.0.1 only: the https:// proxy's certificate
 	clientCert map[int]tls.Certificate // client certificate issued by CA k (k = 2, 3)
 }
 
@@ -88,7 +90,9 @@ func (c *ca) issue(cn string, server bool, noIP ...bool) (tls.Certificate, error
 	}
 	if server {
 		tmpl.ExtKeyUsage = []x509.ExtKeyUsage{x509.ExtKeyUsageServerAuth}
-		tmpl.DNSNames = []string{"localhost", "c12.test"}
+		if len(noIP) < 2 || !noIP[1] { // second flag: no DNS names (the proxy's certificate)
+			tmpl.DNSNames = []string{"localhost", "c12.test"}
+		}
 		if len(noIP) == 0 || !noIP[0] {
 			tmpl.IPAddresses = []net.IP{net.ParseIP("127.0.0.1")}
 		}
@@ -119,6 +123,9 @@ func newPKI() (*pki, error) {
 	if p.nameCert, err = p.cas[1].issue("c12 origin (names only)", true, true); err != nil {
 		return nil, err
 	}
+	if p.proxyCert, err = p.cas[1].issue("c12 proxy", true, false, true); err != nil {
+		return nil, err
+	}
 	for _, k := range []int{2, 3} {
 		if p.clientCert[k], err = p.cas[k].issue(fmt.Sprintf("client-of-ca-%d", k), false); err != nil {
 			return nil, err
@@ -141,6 +148,7 @@ func (p *pki) pool(ids ...int) *x509.CertPool {
 // ---------- origins ----------
 
 type hello struct {
+	Proxy bool    `json:"proxy,omitempty"` // received by the TLS listener of the https:// proxy
 	Quic bool     `json:"quic"`
 	SNI  string   `json:"sni"`
 	ALPN []string `json:"alpn"`
@@ -160,8 +168,10 @@ type srvSpec struct {
 type origin struct {
 	spec   srvSpec
 	port   int
+	pport  [3]int // [1]: plain CONNECT proxy, [2]: CONNECT proxy behind TLS (https:// proxy); 127.0.0.1:<pport>
 	mu     sync.Mutex
 	hellos []hello
+	connects int    // CONNECT requests the proxies have tunnelled
 	clear  []string // first bytes of every connection to the TLS port that did not start with a TLS record
 	closes []func()
 }
@@ -204,6 +214,12 @@ func (c *peekConn) Read(p []byte) (int, error) {
 	return n, err
 }
 
+func (o *origin) connectCount() int {
+	o.mu.Lock()
+	defer o.mu.Unlock()
+	return o.connects
+}
+
 func (o *origin) clearMark() int {
 	o.mu.Lock()
 	defer o.mu.Unlock()
@@ -230,6 +246,69 @@ func (o *origin) logHello(quic bool, ch *tls.ClientHelloInfo) {
 	o.mu.Lock()
 	o.hellos = append(o.hellos, hello{Quic: quic, SNI: ch.ServerName, ALPN: append([]string(nil), ch.SupportedProtos...)})
 	o.mu.Unlock()
+}
+
+var proxySANs = []string{"127.0.0.1"}
+
+func (o *origin) proxyURL(kind int) string {
+	return fmt.Sprintf("%s://127.0.0.1:%d", []string{"", "http", "https"}[kind], o.pport[kind])
+}
+
+// CONNECT proxy in front of this origin: tunnels to 127.0.0.1:<port asked for>, whatever the name
+func (o *origin) startProxy(p *pki, kind int) error {
+	ln, err := net.Listen("tcp", "127.0.0.1:0")
+	if err != nil {
+		return err
+	}
+	o.pport[kind] = ln.Addr().(*net.TCPAddr).Port
+	h := http.HandlerFunc(func(w http.ResponseWriter, r *http.Request) {
+		if r.Method != http.MethodConnect {
+			http.Error(w, "CONNECT only", http.StatusMethodNotAllowed)
+			return
+		}
+		_, port, err := net.SplitHostPort(r.Host)
+		if err != nil {
+			http.Error(w, "bad target", http.StatusBadRequest)
+			return
+		}
+		up, err := net.Dial("tcp", "127.0.0.1:"+port)
+		if err != nil {
+			http.Error(w, err.Error(), http.StatusBadGateway)
+			return
+		}
+		hj, ok := w.(http.Hijacker)
+		if !ok {
+			up.Close()
+			return
+		}
+		down, _, err := hj.Hijack()
+		if err != nil {
+			up.Close()
+			return
+		}
+		o.mu.Lock()
+		o.connects++
+		o.mu.Unlock()
+		down.Write([]byte("HTTP/1.1 200 Connection established\r\n\r\n"))
+		go func() { io.Copy(up, down); up.Close() }()
+		go func() { io.Copy(down, up); down.Close() }()
+	})
+	srv := &http.Server{Handler: h, ReadHeaderTimeout: 10 * time.Second}
+	var l net.Listener = ln
+	if kind == 2 {
+		cfg := &tls.Config{Certificates: []tls.Certificate{p.proxyCert}, NextProtos: []string{"http/1.1"}}
+		cfg.GetConfigForClient = func(ch *tls.ClientHelloInfo) (*tls.Config, error) {
+			o.mu.Lock()
+			o.hellos = append(o.hellos, hello{Proxy: true, SNI: ch.ServerName, ALPN: append([]string(nil), ch.SupportedProtos...)})
+			o.mu.Unlock()
+			return nil, nil
+		}
+		srv.TLSNextProto = map[string]func(*http.Server, *tls.Conn, http.Handler){}
+		l = tls.NewListener(ln, cfg)
+	}
+	go srv.Serve(l)
+	o.closes = append(o.closes, func() { srv.Close() })
+	return nil
 }
 
 func (o *origin) mark() int {
@@ -344,6 +423,11 @@ func startOrigin(p *pki, spec srvSpec) (*origin, error) {
 			}
 			go srv.Serve(tls.NewListener(peekListener{ln, o}, srv.TLSConfig))
 			o.closes = append(o.closes, func() { srv.Close() })
+			for kind := 1; kind <= 2; kind++ {
+				if err := o.startProxy(p, kind); err != nil {
+					return nil, err
+				}
+			}
 		} else {
 			var h http.Handler = o.handler("plain")
 			if spec.H2C {
